@@ -80,9 +80,11 @@ def c_case(case: Dict[str, Any], prefix: str, alphabet, xorder, M) -> str:
     uni = []
     for key, cands in case["universe"].items():
         cs = []
-        for (cname, ver, reqs, readable) in cands:
+        for cand in cands:
+            cname, ver, reqs, readable = cand[:4]
+            sdist = bool(cand[4]) if len(cand) > 4 else False
             d = c_dist(cname, ver, [U.parse_requirement(r) for r in reqs], False, U)
-            cs.append(f"(mkCand {c_str(cname)} {d} {'true' if readable else 'false'})")
+            cs.append(f"(mkCand {c_str(cname)} {d} {'true' if readable else 'false'} {'true' if sdist else 'false'})")
         uni.append(f"({c_str(U.normalize_project_name(key))}, {c_list(cs)})")
     out.append(f"Definition {prefix}_universe : universe := {c_list(uni)}.")
     mk = lambda n, reqs: c_dist(n, None, [U.parse_requirement(r) for r in reqs], True, U)
